@@ -10,7 +10,7 @@ func init() {
 
 // small signed integers so that every product / sum stays exact in float32
 func smallT(dt string, s []int, seed int) *TJ {
-	return seqT(dt, s, func(i int) float64 { return float64((i*7+seed*3)%7 - 3) })
+	return seqT(dt, s, func(i int) float64 { return float64((i*5+seed*3+(i*i)%3)%7 - 3) })
 }
 
 func genC04(e *emitter, tier string) {
